@@ -207,7 +207,9 @@ def job(cfg):
                     try:
                         lp = dist.log_prob(x, context=c)
                         if crows is not None and crows != N:
-                            note(tag, "no ValueError for %d inputs and %d context rows" % (N, crows))
+                            err = "no ValueError for %d inputs and %d context rows" % (N, crows)
+                            if not note(tag, err) and not any(v["relation"] == "row-count-check" for v in jr["violations"]):
+                                fail("row-count-check", {"context": True}, {"kind": kind, "rows": crows, "n": N, "batch_size": None, "what": "rowcheck"}, err)
                         else:
                             note(tag, None if tuple(lp.shape) == (N,) else "log_prob shape %s for %d rows" % (tuple(lp.shape), N))
                     except ValueError as e:
@@ -275,6 +277,17 @@ def replay(kind, rows, n, batch_size, what, bad=None):
         else:
             dist, _, cw, event = make(kind)
         ctx = torch.randn(rows, cw) if rows is not None else None
+        if what == "rowcheck":
+            xx = torch.randn((n,) + tuple(event))
+            try:
+                dist.log_prob(xx, context=ctx)
+                res["outcome"] = "accepted %d inputs with %d context rows" % (n, rows)
+                res["reproduced"] = True
+            except ValueError:
+                res["outcome"] = "ValueError"
+            except Exception as e:  # noqa
+                res["outcome"] = "%s: %s" % (type(e).__name__, e)
+            return res
         if what == "count-validation":
             import ast
 
